@@ -1,6 +1,7 @@
 (* C05 - every failure is an error value: no input crashes or hangs the interpreter. Property theorems only (proofs in proofs/ParserTermination.v). Front end: for EVERY token list the parser terminates within the fuel the model gives it and never panics; for EVERY text the lexer consumes its whole input with strictly increasing offsets. The compiler is structurally recursive on the tree (no fuel: termination by Coq's guard). Machine-level no-panic statements are in C02 (verify_sound), C14 (builtins_total) and C06 (operators). *)
-From NL.Model Require Import Parser.
-From NL.Proofs Require ParserTermination.
+From NL.Model Require Import Parser Pipeline.
+From NL.Spec Require Import Printer.
+From NL.Proofs Require ParserTermination CompilerTotal.
 
 
 (* parsing terminates: the fuel the model hands the Pratt parser (linear in the number of tokens) is never exhausted, for every token list whatsoever and every float oracle. (The pinned tree violated this: `functie (` looped forever.) *)
@@ -47,6 +48,30 @@ Proof. exact ParserTermination.lex_offsets_increasing. Qed.
 Theorem lex_offsets_bounded : forall (u : unicode) (s : text), Forall (fun p : Z => 0 < p <= utf8_len s) (map snd (lex u s)).
 Proof. exact ParserTermination.lex_offsets_bounded. Qed.
 
+(* THE front-end statement: for every text, lexing + parsing + compiling yields bytecode or one of the documented error kinds - never a panic - provided str::parse::<f64> accepts digits.digits *)
+Theorem front_end_no_panic : forall (u : unicode) (orc : oracle) (src : text), (forall s : text, CompilerTotal.float_shape s -> parse_float orc s <> None) -> match front u orc src with | Ok _ | Err _ => True | _ => False end.
+Proof. exact CompilerTotal.front_end_no_panic. Qed.
+
+(* the compiler never reaches a panic site (jump patch assertion, loop-context pop, unexpected operator) on any tree in the parser's image, from any compiler state satisfying its invariant *)
+Theorem compile_no_fault : forall (b : block) (st : cstate), wf_tree b = true -> CompilerTotal.code_inv st -> forall f : fault, compile_statements b st <> Fault f.
+Proof. exact CompilerTotal.compile_no_fault. Qed.
+
+(* compile returns bytecode or an error kind *)
+Theorem compile_result_kinds : forall b : block, wf_tree b = true -> (exists bc : bytecode, compile b = Ok bc) \/ (exists k : errkind, compile b = Err k).
+Proof. exact CompilerTotal.compile_result_kinds. Qed.
+
+(* ... also for a retained compiler, line after line *)
+Theorem compile_ast_session : forall (b : block) (st : cstate), wf_tree b = true -> c_loops st = [] -> c_loops (fst (compile_ast b st)) = [] /\ CompilerTotal.no_panic (snd (compile_ast b st)).
+Proof. exact CompilerTotal.compile_ast_session. Qed.
+
+(* eval: a front-end failure is always an error value *)
+Theorem eval_front_no_panic : forall (u : unicode) (orc : oracle) (src : text) (budget : nat) (r : outcome bytecode), (forall s : text, CompilerTotal.float_shape s -> parse_float orc s <> None) -> eval u orc src budget = FrontError r -> exists k : errkind, r = Err k.
+Proof. exact CompilerTotal.eval_front_no_panic. Qed.
+
+(* float tokens have the shape digits.digits (discharges the oracle hypothesis of parse_no_panic for Rust's parser) *)
+Theorem lexer_floats_shaped : forall (u : unicode) (src s : text), In (TFloatLit s) (tokens u src) -> CompilerTotal.float_shape s.
+Proof. exact CompilerTotal.lexer_floats_shaped. Qed.
+
 Example functie_paren_terminates : exists k, parse_tokens (fun _ => None) [TFix KFunc; TFix KOpenParen] = Err k.
 Proof. eexists; vm_compute; reflexivity. Qed.
 Print Assumptions parse_terminates.
@@ -60,3 +85,9 @@ Print Assumptions next_token_total.
 Print Assumptions lex_complete.
 Print Assumptions lex_offsets_increasing.
 Print Assumptions lex_offsets_bounded.
+Print Assumptions front_end_no_panic.
+Print Assumptions compile_no_fault.
+Print Assumptions compile_result_kinds.
+Print Assumptions compile_ast_session.
+Print Assumptions eval_front_no_panic.
+Print Assumptions lexer_floats_shaped.
